@@ -1,6 +1,7 @@
 package harness
 
 import (
+	"bytes"
 	"fmt"
 	"strings"
 
@@ -206,4 +207,46 @@ func inputLen(st *Step) int {
 		n += len(f.Data)
 	}
 	return n
+}
+
+// Zero-default cases: "a flag left at or set to its empty/zero default means
+// 'no override'": the command with the flag at its zero value and the command
+// without the flag give the same status and the same bytes.
+var zeroDefaultFlags = [][2]string{{"--bpm", "0"}, {"--bpm", "00"}, {"--key", ""}, {"-k", ""}, {"--meter", ""}, {"--velocity", ""}, {"--program", "0"}}
+
+func (p *C09) zeroDefaultCases(seed uint64) {
+	docs := []string{
+		goodInst + "- chord:\n    degree: \"5\"\n    name: \"7\"\n    base: \"3\"\n  values:\n    - \"1\"\n    - \"1/2\"\n  meta:\n    txt: hi\n- values:\n    - \"2\"\n",
+		"- chord:\n    degree: \"1\"\n    name: \"m\"\n  values:\n    - \"1\"\n  bpm: 90\n  key: \"Eb\"\n  meter: \"3/4\"\n  velocity: \"pp\"\n" + goodInst,
+		"- values:\n    - \"1\"\n" + goodInst,
+	}
+	for _, cmd := range [][]string{{"write"}, {"write", "event"}, {"write", "parse"}, {"write", "conv", "-c", "cmt"}} {
+		for _, fv := range zeroDefaultFlags {
+			for di, doc := range docs {
+				c := &Case{Property: "C09", Kind: "zerodefault", Seed: seed, Run: 1_000_000 + len(p.cuts),
+					Labels: []string{"fault:F11:flag:" + fv[0], "zero-default"}, Params: map[string]string{"flag": fv[0], "value": fv[1]}}
+				a := Step{Step: simrt.Step{Argv: append([]string{}, cmd...), Seed: seed + uint64(di), Stdin: &simrt.Stream{Data: []byte(doc)}}}
+				b := Step{Step: simrt.Step{Argv: append(append([]string{}, cmd...), fv[0], fv[1]), Seed: seed + uint64(di), Stdin: &simrt.Stream{Data: []byte(doc)}}}
+				c.Steps = []Step{a, b}
+				p.cuts = append(p.cuts, c)
+				p.ngrowth++
+			}
+		}
+	}
+}
+
+func zeroDefaultFindings(c *Case, out *Outcome) []Finding {
+	if len(out.Results) != 2 || out.Results[0] == nil || out.Results[1] == nil {
+		return nil
+	}
+	a, b := out.Results[0], out.Results[1]
+	if a.Hang() != "" || b.Hang() != "" || a.Crash() != "" || b.Crash() != "" {
+		return nil
+	}
+	cmd := CommandOf(c.Steps[0].Argv)
+	if a.Exit == b.Exit && bytes.Equal(a.Stdout, b.Stdout) {
+		return nil
+	}
+	return []Finding{{Signature: fmt.Sprintf("C09/zero-default-is-an-override/%s/%s", c.Params["flag"], cmd),
+		Detail: fmt.Sprintf("`crd %s` and the same command without %s %q differ (exit %d, %d bytes %q vs exit %d, %d bytes %q): the flag at its empty/zero default must mean 'no override'", strings.Join(c.Steps[1].Argv, " "), c.Params["flag"], c.Params["value"], b.Exit, len(b.Stdout), first(b.Stdout, 80), a.Exit, len(a.Stdout), first(a.Stdout, 80))}}
 }
